@@ -199,7 +199,11 @@ def run(ctx):
         ra, rb = recs[2 * k], recs[2 * k + 1]
         if "timeout" in (ra.err or "") + (rb.err or "") or "budget" in (ra.err or "") + (rb.err or ""):
             continue
-        if ra.key(ordered) != rb.key(ordered):
+        # the equivalences are about results; an expansion may evaluate a sub-expression more often than its sugared form
+        # (`if C …` once, `(?(C) …, !(C) …)` twice), so the NUMBER of diagnostics is not compared, their kinds are
+        ka, kb = ra.key(ordered), rb.key(ordered)
+        ka, kb = ka[:2] + (tuple(sorted(set(ka[2]))),) + ka[3:], kb[:2] + (tuple(sorted(set(kb[2]))),) + kb[3:]
+        if ka != kb:
             ctx.violation("programs the documentation declares equivalent differ: %r -> %r ; %r -> %r"
                           % (a, (ra.err, ra.res[:4]), b, (rb.err, rb.res[:4])),
                           {"stream": "C15-equivalence", "input": [a, b], "got": [ra.raw[:8], rb.raw[:8]]})
